@@ -80,6 +80,8 @@ def run_level_shard(mod, shard, tier, depth_limit):
                         # successors would only repeat the finding in other words
                         res["pruned_after_known_finding"] = res.get("pruned_after_known_finding", 0) + 1
                         continue
+                    if lab in getattr(mod, "TERMINAL", ()):
+                        continue  # examined as a request, not expanded further
                     res["successors"].append(((start, tuple(labels) + (lab,)), mgraph.canon(m2)))
         if len(res["samples"]) < 1:
             res["samples"].append(f"{start} -> {' -> '.join(labels) or '(start)'}")
